@@ -22,6 +22,11 @@
         0.9^p * accuracy under the h^p error model; the retry loop of takeOneStep accepts a step only if it
         converged with estimated error norm <= accuracy or the step is at the user's minimum
         (C20_accepted_step_meets_accuracy_partial).
+      - calcErrorNorm over the (q,u,z) partition, both norms: the infinity norm is the maximum over ALL weighted
+        components (C20_err_norm_inf_ge_every_component, C20_single_bad_z_component_bounds_inf_norm,
+        C20_err_norm_inf_is_max, C20_inf_norm_le_acc_iff), the RMS norm is the largest block RMS and bounds every
+        component up to sqrt(block size); a step accepted under the infinity norm has EVERY weighted error-estimate
+        component within the accuracy (C20_accepted_step_every_component_within_accuracy).
     NOT decided (no theorem, and the check does not test it either): that the GLOBAL error over an interval is
     <= c * accuracy for general smooth ODEs (the order conditions are stated as rational identities; the classical
     theorem "order conditions => local error O(h^(p+1)) for every smooth f" is not formalised), that tightening the
@@ -555,3 +560,68 @@ Theorem C20_order_conditions_discriminate :
   ~ order_conditions 1 (rk2_tab ROps) [1; 1].
 Proof. exact @order_conditions_discriminate. Qed.
 Print Assumptions C20_order_conditions_discriminate.
+
+(** ------------------------------------------------------------------------------------------
+    calcErrorNorm over the (q,u,z) partition (IntegratorRep.h), both settings of setUseInfinityNorm *)
+Theorem C20_err_norm_inf_ge_every_component wq su sz eq eu ez :
+  (forall i, (i < blen wq eq)%nat -> wc wq eq i <= err_norm_inf ROps wq su sz eq eu ez) /\
+  (forall i, (i < blen su eu)%nat -> wc su eu i <= err_norm_inf ROps wq su sz eq eu ez) /\
+  (forall i, (i < blen sz ez)%nat -> wc sz ez i <= err_norm_inf ROps wq su sz eq eu ez).
+Proof. exact (err_norm_inf_ge_every_component wq su sz eq eu ez). Qed.
+Print Assumptions C20_err_norm_inf_ge_every_component.
+
+(** a single bad z component bounds the infinity norm from below, whatever q and u are *)
+Theorem C20_single_bad_z_component_bounds_inf_norm wq su sz eq eu ez i : (i < blen sz ez)%nat ->
+  Rabs (nth i sz 0 * nth i ez 0) <= err_norm_inf ROps wq su sz eq eu ez.
+Proof. exact (single_bad_z_component_bounds_inf_norm wq su sz eq eu ez i). Qed.
+Print Assumptions C20_single_bad_z_component_bounds_inf_norm.
+
+Theorem C20_err_norm_inf_is_max wq su sz eq eu ez c : 0 <= c ->
+  (forall i, (i < blen wq eq)%nat -> wc wq eq i <= c) -> (forall i, (i < blen su eu)%nat -> wc su eu i <= c) ->
+  (forall i, (i < blen sz ez)%nat -> wc sz ez i <= c) -> err_norm_inf ROps wq su sz eq eu ez <= c.
+Proof. exact (err_norm_inf_is_max wq su sz eq eu ez c). Qed.
+Print Assumptions C20_err_norm_inf_is_max.
+
+Theorem C20_inf_norm_le_acc_iff wq su sz eq eu ez acc : 0 <= acc ->
+  (err_norm_inf ROps wq su sz eq eu ez <= acc <->
+   (forall i, (i < blen wq eq)%nat -> wc wq eq i <= acc) /\ (forall i, (i < blen su eu)%nat -> wc su eu i <= acc) /\
+   (forall i, (i < blen sz ez)%nat -> wc sz ez i <= acc)).
+Proof. exact (inf_norm_le_acc_iff wq su sz eq eu ez acc). Qed.
+Print Assumptions C20_inf_norm_le_acc_iff.
+
+Theorem C20_wrms_component_bound ws es i : (i < blen ws es)%nat ->
+  wc ws es i <= sqrt (INR (length es)) * wrms ROps ws es.
+Proof. exact (wrms_component_bound ws es i). Qed.
+Print Assumptions C20_wrms_component_bound.
+
+Theorem C20_err_norm_rms_is_max_of_blocks wq su sz eq eu ez :
+  let p := err_norm ROps wq su sz eq eu ez in
+  wrms ROps wq eq <= p /\ wrms ROps su eu <= p /\ wrms ROps sz ez <= p /\
+  (p = wrms ROps wq eq \/ p = wrms ROps su eu \/ p = wrms ROps sz ez).
+Proof. exact (err_norm_rms_is_max_of_blocks wq su sz eq eu ez). Qed.
+Print Assumptions C20_err_norm_rms_is_max_of_blocks.
+
+Theorem C20_single_bad_z_component_bounds_rms_norm wq su sz eq eu ez i : (i < blen sz ez)%nat ->
+  Rabs (nth i sz 0 * nth i ez 0) <= sqrt (INR (length ez)) * err_norm ROps wq su sz eq eu ez.
+Proof. exact (single_bad_z_component_bounds_rms_norm wq su sz eq eu ez i). Qed.
+Print Assumptions C20_single_bad_z_component_bounds_rms_norm.
+
+(** a step accepted by the retry loop of takeOneStep under the infinity norm either converged with EVERY weighted
+    error-estimate component of q, u and z within the accuracy, or was taken at the user's minimum step size *)
+Theorem C20_accepted_step_every_component_within_accuracy (A:Type) wq su sz
+  (est : R -> bool * (list R * list R * list R) * Z * A) inf t0 tMax acc umin umax :
+  0 < acc -> acc < inf -> (forall t, let '(_, _, ord, _) := est t in (1 <= ord)%Z) ->
+  forall fuel cur nfail res t1 h' nf,
+  0 < cur -> (forall b, umax = Some b -> cur <= b) -> (forall a b, umin = Some a -> umax = Some b -> a <= b) ->
+  take_step ROps Rpower fuel (attempt_inf wq su sz est) inf t0 tMax acc cur umin umax nfail = Some (res, t1, h', nf) ->
+  exists c conv eq eu ez ord, 0 < c /\ fst (sel_t1 ROps t0 tMax c) = t1 /\ est t1 = (conv, (eq, eu, ez), ord, res) /\
+    ((conv = true /\
+      (forall i, (i < blen wq eq)%nat -> wc wq eq i <= acc) /\ (forall i, (i < blen su eu)%nat -> wc su eu i <= acc) /\
+      (forall i, (i < blen sz ez)%nat -> wc sz ez i <= acc))
+     \/ (exists a, umin = Some a /\ c <= a)).
+Proof. exact (@accepted_step_every_component_within_accuracy A wq su sz est inf t0 tMax acc umin umax). Qed.
+Print Assumptions C20_accepted_step_every_component_within_accuracy.
+
+Theorem C20_inf_norm_example : err_norm_inf ROps [1] [1] [1; 2] [1/100] [1/50] [1/100; 3] = 6.
+Proof. exact inf_norm_example. Qed.
+Print Assumptions C20_inf_norm_example.
